@@ -2,6 +2,8 @@
 VIOLATION / KNOWN-FINDING / DRIFT / INFRA lines.  Oracles live in the TLA+ specs, not here."""
 import atexit, hashlib, json, os, random, re, shutil, signal, subprocess, sys, time
 
+sys.setrecursionlimit(20000)      # deeply nested trees (scaled instances) in JSON
+
 VERIF = os.path.dirname(os.path.dirname(os.path.abspath(__file__)))
 REPO = os.environ.get("VERIF_REPO", "/repo")
 SPEC = os.path.join(VERIF, "spec")
@@ -421,10 +423,43 @@ def tla_values(out):
     return vals
 
 
+def _depth(x):
+    d, stack = 0, [(x, 1)]
+    while stack:
+        y, k = stack.pop()
+        d = max(d, k)
+        if isinstance(y, dict):
+            stack += [(v, k + 1) for v in y.values()]
+        elif isinstance(y, list):
+            stack += [(v, k + 1) for v in y]
+    return d
+
+
+def flatten_tree(t):
+    """tree {k, op, c} -> {"flat": [[k, op, arity], ...]} in prefix order (see Unflat in XjsGrammar)"""
+    out, stack = [], [t]
+    while stack:
+        n = stack.pop()
+        out.append([n["k"], n["op"], len(n["c"])])
+        stack += reversed(n["c"])
+    return {"flat": out}
+
+
+def _flatten_deep(x):
+    """replace trees nested too deeply for TLC's JSON reader (255 levels) by their flat form"""
+    if isinstance(x, dict):
+        if set(x.keys()) == {"k", "op", "c"}:
+            return flatten_tree(x) if _depth(x) > 80 else x
+        return {k: _flatten_deep(v) for k, v in x.items()}
+    if isinstance(x, list):
+        return [_flatten_deep(v) for v in x]
+    return x
+
+
 def write_ndjson(path, recs):
     with open(path, "w") as f:
         for r in recs:
-            f.write(json.dumps(r, separators=(",", ":")) + "\n")
+            f.write(json.dumps(_flatten_deep(r), separators=(",", ":")) + "\n")
 
 
 # ------------------------------------------------------------------ known findings
